@@ -114,6 +114,16 @@ pub fn probe(opts: &Opts) -> i32 {
                 if keys.is_empty() { "-".to_string() } else { keys },
                 post
             );
+            // C13 after recovery: memory_usage() = sum over the live records of overhead + key + value
+            let expect_mem = snap.iter().fold(0usize, |a, r| {
+                a.wrapping_add(FeoxStore::verif_record_overhead()).wrapping_add(r.key.len()).wrapping_add(r.value_len as usize)
+            });
+            let got_mem = store.memory_usage();
+            let line = if expect_mem != got_mem || store.len() != snap.len() {
+                format!("{line} ACCT-BROKEN expect_mem={expect_mem} got_mem={got_mem} len={} records={}", store.len(), snap.len())
+            } else {
+                line
+            };
             // "a store that does open answers every call without panicking"
             let skip_workload = opts.u64("noworkload", 0) == 1;
             let probe = std::panic::catch_unwind(std::panic::AssertUnwindSafe(|| {
@@ -408,6 +418,8 @@ pub fn open_verdict(line: &str) -> String {
         "FAIL rejected-for-size-or-metadata-but-file-modified".into()
     } else if line.contains("PANIC") {
         "FAIL open-or-read-panicked".into()
+    } else if line.contains("ACCT-BROKEN") {
+        "FAIL memory-usage-or-len-after-recovery-differs-from-the-live-records".into()
     } else if line.contains("TIMEOUT") {
         "FAIL open-hung".into()
     } else if line.contains("CHILD-DIED") || line.contains("SPAWN-FAILED") {
